@@ -53,12 +53,16 @@ class BaseInterval(ABC):
         result : ndarray
             The transformed values.
         """
+        # integer images are normalised in floating point: integer arithmetic wraps around
+        # (uint8: 3 - 5 -> 254; int8: 100 - (-100) -> -56), in the limits as well as here
+        values = np.asanyarray(values)
+        if np.issubdtype(values.dtype, np.integer):
+            values = values.astype(np.float64)
+
         vmin, vmax = self.get_limits(values)
 
         # subtract vmin
         values = np.subtract(values, vmin)
-        if np.issubdtype(values.dtype, np.integer):
-            values = values.astype(np.float64)
         # divide by interval
         if (vmax - vmin) != 0.0:
             np.true_divide(values, vmax - vmin, out=values)
@@ -524,6 +528,9 @@ class CustomNormalization(colors.Normalize):
             self.vmin, self.vmax = 0.0, 1.0
             self.interval = ManualInterval(self.vmin, self.vmax)
             return None
+
+        if np.issubdtype(data.dtype, np.integer):
+            data = data.astype(np.float64)  # limits of integer images are computed in floating point
 
         self.vmin, self.vmax = self.interval.get_limits(data)
         self.interval = ManualInterval(self.vmin, self.vmax)  # set explicitly with ManualInterval
